@@ -2,6 +2,8 @@ package sim
 
 import (
 	"bytes"
+	"os"
+	"runtime"
 	"crypto/md5"
 	"encoding/hex"
 	"fmt"
@@ -99,7 +101,9 @@ type Monitor struct {
 	Idles            int
 	tcpCtl           map[*TCPConn]*ctlStream
 	relayErr         map[string]int64 // relay key -> time of injected failure
+	relayWriteErr    map[string]bool
 	ctlEnded         map[string]int64 // client -> time its TCP control connection ended (server view)
+	orphanDeletes    map[string][]int64 // allocation-deleted events seen before the Allocate response
 	InboundMTU       int
 }
 
@@ -119,7 +123,7 @@ func NewMonitor(k *Kernel, n *Net, p *Plan) *Monitor {
 	m := &Monitor{K: k, Net: n, P: p, M: NewModel(perm, ch, life), users: map[string]string{}, denyPeer: map[string]bool{},
 		denyClient: map[string]bool{}, nonces: map[string]*nonceInfo{}, intents: map[string]*Intent{}, reqs: map[string][]*mReq{},
 		evCount: map[string]int{}, states: map[string]struct{}{}, srvWriteFailed: map[string]bool{}, MustMax: 1400,
-		tcpCtl: map[*TCPConn]*ctlStream{}, relayErr: map[string]int64{}, ctlEnded: map[string]int64{}}
+		tcpCtl: map[*TCPConn]*ctlStream{}, relayErr: map[string]int64{}, relayWriteErr: map[string]bool{}, orphanDeletes: map[string][]int64{}, ctlEnded: map[string]int64{}}
 	m.InboundMTU = p.Cfg.InboundMTU
 	if m.InboundMTU == 0 {
 		m.InboundMTU = 1600
@@ -247,6 +251,27 @@ func (m *Monitor) UDPWrite(s *UDPSock, to *net.UDPAddr, b []byte) {
 }
 
 func (m *Monitor) UDPDeliverScripted(s *UDPSock, d *Dgram) {}
+
+// IOFaulted: the plan made a socket call fail.
+func (m *Monitor) IOFaulted(role, op, addr string) {
+	now := m.K.Now()
+	m.mu.Lock()
+	defer m.mu.Unlock()
+	switch {
+	case role == "relay" && (op == "ReadFrom" || op == "Accept"):
+		if _, ok := m.relayErr[addr]; !ok {
+			m.relayErr[addr] = now
+		}
+	case role == "relay" && op == "WriteTo":
+		i := strings.Index(addr, ">")
+		m.relayWriteErr[addr[:i]] = true
+	case role == "listener" && op == "WriteTo":
+		i := strings.Index(addr, ">")
+		m.srvWriteFailed[addr[i+1:]] = true
+	case role == "listener" && op == "Accept":
+		m.serverClosed = true
+	}
+}
 func (m *Monitor) SockOpen(info *SockInfo)                {}
 func (m *Monitor) SockClose(info *SockInfo)               {}
 
@@ -490,11 +515,17 @@ func (m *Monitor) respAllocate(r *mReq, msg *stun.Message, ok bool, code int, I 
 	for _, a := range poss {
 		if a.TID == r.TID {
 			// retransmission: must be the same answer and must not create anything
-			m.K.Stats.Probe("allocate_retransmit_answered")
-			if a.RespSig != sig {
-				m.v([]string{"C19"}, "retry-not-idempotent", kv("what", "attributes"), "retransmitted Allocate got different attributes: %s vs %s", a.RespSig, sig)
+			if a.RespSig == sig {
+				m.K.Stats.Probe("allocate_retransmit_answered")
+				return
 			}
-			return
+			if m.M.DefinitelyAlive(a, I.Lo, I.Hi) {
+				m.v([]string{"C19"}, "retry-not-idempotent", kv("what", "attributes"), "retransmitted Allocate got different attributes: %s vs %s", a.RespSig, sig)
+				return
+			}
+			// the earlier allocation may have ended while this request was being handled:
+			// then this is a legitimate new allocation
+			m.K.Stats.Probe("allocate_retransmit_after_end")
 		}
 	}
 	if def != nil {
@@ -519,9 +550,27 @@ func (m *Monitor) respAllocate(r *mReq, msg *stun.Message, ok bool, code int, I 
 	if v, err := r.Msg.Get(attrReqTransport); err == nil && len(v) == 4 && v[0] == 6 {
 		tcp = true
 	}
-	a := m.M.NewAlloc(r.Client, r.User, relay, tcp, I, int64(life)*1e9)
+	Ic := I
+	for _, o := range m.M.Allocs[r.Client] {
+		if lo := o.endLo(); lo > Ic.Lo && lo <= Ic.Hi {
+			Ic.Lo = lo
+		}
+	}
+	a := m.M.NewAlloc(r.Client, r.User, relay, tcp, Ic, int64(life)*1e9)
 	a.TID = r.TID
 	a.RespSig = sig
+	ended := false
+	if od := m.orphanDeletes[r.Client]; len(od) > 0 {
+		// the allocation was already deleted again while its success response was held up
+		td := od[0]
+		m.orphanDeletes[r.Client] = od[1:]
+		if td >= Ic.Lo && td <= I.Hi {
+			a.DeletedEvents = 1
+			a.End = &ivl{td, td}
+			a.EndCause = "before-response"
+			ended = true
+		}
+	}
 	m.Net.SetName(a.RelayKey, "relay:"+m.Net.Name(src.IP, src.Port))
 	// relay truthfulness (C19/C20): really bound, open, not shared
 	m.Net.mu.Lock()
@@ -532,7 +581,7 @@ func (m *Monitor) respAllocate(r *mReq, msg *stun.Message, ok bool, code int, I 
 		}
 	}
 	m.Net.mu.Unlock()
-	if bound == nil {
+	if bound == nil && !ended && Ic.Lo+int64(life)*1e9 > I.Hi {
 		m.v([]string{"C19", "C20"}, "relay-unreachable", nil, "Allocate advertised %s but no open relay socket is bound there", a.RelayKey)
 	}
 	for _, o := range m.M.ByRelay[a.RelayKey] {
@@ -710,6 +759,74 @@ func rangeClass(n uint16) string {
 	return "in"
 }
 
+// ---------------------------------------------------------------- requests in flight
+
+// pendingInstall: is there a request from the allocation's client, received by the server at
+// or before t2 and not answered yet, whose success would install a permission for ip (and,
+// when n >= 0, bind channel n to addr)? Its effect may already be in force (interval semantics).
+func (m *Monitor) pendingInstall(a *mAlloc, ip string, n int, addr string, t2 int64) bool {
+	for _, rs := range m.reqs {
+		for _, r := range rs {
+			if r.Answered || r.Client != a.Client || r.TRecv > t2 || r.Auth < 0 {
+				continue
+			}
+			switch r.Method {
+			case stun.MethodCreatePermission:
+				if n >= 0 {
+					continue
+				}
+				peers, _ := allXORAddrs(r.Msg, attrXORPeerAddress)
+				for _, p := range peers {
+					if p.IP.String() == ip {
+						return true
+					}
+				}
+			case stun.MethodChannelBind:
+				cn, ok1 := getChannel(r.Msg)
+				peer, ok2 := getXORAddr(r.Msg, attrXORPeerAddress)
+				if !ok1 || !ok2 {
+					continue
+				}
+				if n < 0 && peer.IP.String() == ip {
+					return true
+				}
+				if n >= 0 && int(cn) == n && ustr(peer) == addr {
+					return true
+				}
+			}
+		}
+	}
+	return false
+}
+
+func (m *Monitor) permPoss(a *mAlloc, ip string, t1, t2 int64) bool {
+	return m.M.PermPossibly(a, ip, t1, t2) || m.pendingInstall(a, ip, -1, "", t2)
+}
+
+func (m *Monitor) chanPoss(a *mAlloc, n uint16, addr string, t1, t2 int64) bool {
+	return m.M.ChanPossibly(a, n, addr, t1, t2) || m.pendingInstall(a, "", int(n), addr, t2)
+}
+
+func (m *Monitor) chanOfAddrPoss(a *mAlloc, addr string, t1, t2 int64) bool {
+	if m.M.ChanOfAddrPossibly(a, addr, t1, t2) {
+		return true
+	}
+	for n := 0x4000; n <= 0x7FFF; n += 0x4000 { // any number: scan pending binds for this address
+		_ = n
+	}
+	for _, rs := range m.reqs {
+		for _, r := range rs {
+			if r.Answered || r.Client != a.Client || r.TRecv > t2 || r.Auth < 0 || r.Method != stun.MethodChannelBind {
+				continue
+			}
+			if peer, ok := getXORAddr(r.Msg, attrXORPeerAddress); ok && ustr(peer) == addr {
+				return true
+			}
+		}
+	}
+	return false
+}
+
 // ---------------------------------------------------------------- client -> peer (C01/C04/C05/C06/C07)
 
 func (m *Monitor) allocsByRelay(relayKey string, t1, t2 int64) []*mAlloc {
@@ -744,7 +861,7 @@ func (m *Monitor) relayWrite(relayKey, to string, payload []byte, now int64) {
 				continue
 			}
 			if s.IsChan {
-				if m.M.ChanPossibly(a, s.Chan, to, s.TRecv, now) {
+				if m.chanPoss(a, s.Chan, to, s.TRecv, now) {
 					s.Done = true
 					m.lateEmission(s, now)
 					if m.vetoed(a.Client, dst.IP) {
@@ -754,7 +871,7 @@ func (m *Monitor) relayWrite(relayKey, to string, payload []byte, now int64) {
 				}
 				why = "no-binding"
 			} else if s.Peer == to {
-				if m.M.PermPossibly(a, dst.IP.String(), s.TRecv, now) {
+				if m.permPoss(a, dst.IP.String(), s.TRecv, now) {
 					s.Done = true
 					m.lateEmission(s, now)
 					return
@@ -884,7 +1001,7 @@ func (m *Monitor) forward(to string, isChan bool, num uint16, peer string, paylo
 			}
 			src := mustUDPAddr(i.From)
 			if isChan {
-				if !m.M.ChanPossibly(a, num, i.From, i.TRecv, now) {
+				if !m.chanPoss(a, num, i.From, i.TRecv, now) {
 					reason = "number-not-bound-to-sender"
 					continue
 				}
@@ -892,7 +1009,7 @@ func (m *Monitor) forward(to string, isChan bool, num uint16, peer string, paylo
 				reason = "peer-address-differs"
 				continue
 			}
-			if m.M.PermPossibly(a, src.IP.String(), i.TRecv, now) || m.M.ChanOfAddrPossibly(a, i.From, i.TRecv, now) {
+			if m.permPoss(a, src.IP.String(), i.TRecv, now) || m.chanOfAddrPoss(a, i.From, i.TRecv, now) {
 				i.Done = true
 				return
 			}
@@ -961,6 +1078,11 @@ func (m *Monitor) forward(to string, isChan bool, num uint16, peer string, paylo
 
 func (m *Monitor) Event(kind, key string) {
 	now := m.K.Now()
+	if traceKernel && kind == "alloc-deleted" {
+		buf := make([]byte, 8192)
+		n := runtime.Stack(buf, false)
+		fmt.Fprintf(os.Stderr, "STACK %d %s\n%s\n", now, key, buf[:n])
+	}
 	m.mu.Lock()
 	m.events = append(m.events, evRec{kind, key, now})
 	m.evCount[kind]++
@@ -972,56 +1094,81 @@ func (m *Monitor) Event(kind, key string) {
 }
 
 // onAllocDeleted: an allocation of client `key` was removed now. Must be explained by its
-// deadline, a Refresh 0 in progress, or an injected teardown cause.
+// deadline, a Refresh 0 / shorter Refresh in progress, or an injected teardown cause. Events can
+// be late (a stalled callback), so the event is attributed to the oldest allocation of the
+// 5-tuple that has no deleted event yet and that explains it.
 func (m *Monitor) onAllocDeleted(client string, now int64) {
-	as := m.M.Allocs[client]
-	if len(as) == 0 {
+	var cands []*mAlloc
+	for _, a := range m.M.Allocs[client] {
+		if a.DeletedEvents == 0 {
+			cands = append(cands, a)
+		}
+	}
+	if len(cands) == 0 {
 		if m.pendingAllocate(client) {
+			m.orphanDeletes[client] = append(m.orphanDeletes[client], now)
 			return
 		}
-		m.v([]string{"C15"}, "event-unpaired", kv("kind", "allocation", "side", "deleted"), "allocation-deleted event for %s which never had an allocation", client)
+		m.v([]string{"C15"}, "event-unpaired", kv("kind", "allocation", "side", "deleted"), "allocation-deleted event for %s without an allocation that has not been reported deleted yet", client)
 		return
 	}
-	a := as[len(as)-1]
+	for _, a := range cands {
+		if m.explainDelete(a, client, now) {
+			a.DeletedEvents++
+			return
+		}
+	}
+	if m.pendingAllocate(client) && len(m.K.StallIntervals()) > 0 {
+		m.orphanDeletes[client] = append(m.orphanDeletes[client], now)
+		return
+	}
+	a := cands[len(cands)-1]
 	a.DeletedEvents++
-	if a.DeletedEvents > 1 {
-		m.v([]string{"C15"}, "event-unpaired", kv("kind", "allocation", "side", "deleted"), "second allocation-deleted event for %s", client)
-		return
-	}
+	m.v([]string{"C06"}, "dead-before-deadline", kv("cause", "unexplained"), "allocation of %s deleted at %d ns, %d ns before its deadline", client, now, a.Deadline.Lo-now)
+	m.M.EndAlloc(a, ivl{now, now}, "unexplained")
+}
+
+func (m *Monitor) explainDelete(a *mAlloc, client string, now int64) bool {
 	if a.End != nil && now >= a.End.Lo {
-		return
+		return true
 	}
 	if m.serverClosed {
 		m.M.EndAlloc(a, ivl{now, now}, "server-close")
-		return
+		return true
 	}
 	if t, ok := m.ctlEnded[client]; ok && now >= t {
 		m.M.EndAlloc(a, ivl{t, now}, "control-connection")
-		return
+		return true
 	}
 	if t, ok := m.relayErr[a.RelayKey]; ok && now >= t {
 		m.M.EndAlloc(a, ivl{t, now}, "relay-failure")
-		return
+		return true
 	}
-	// Refresh 0 being handled right now?
+	// A Refresh being handled right now (response not written yet) may already have changed
+	// the lifetime: Refresh 0 deletes at once, another value re-arms the timer from its receipt.
 	for _, rs := range m.reqs {
 		for _, r := range rs {
 			if r.Client == client && r.Method == stun.MethodRefresh && !r.Answered && r.Auth >= 0 {
 				if v, ok := getU32(r.Msg, attrLifetime); ok && v == 0 {
-					return
+					m.M.EndAlloc(a, ivl{r.TRecv, now}, "refresh0")
+					return true
+				}
+				if want, _ := m.expectedLifetime(r.Msg); now >= r.TRecv+want {
+					m.K.Stats.Probe("expiry_under_pending_refresh")
+					m.M.EndAlloc(a, ivl{r.TRecv + want, now}, "expiry")
+					return true
 				}
 			}
 		}
 	}
 	if now < a.Deadline.Lo {
-		m.v([]string{"C06"}, "dead-before-deadline", kv("cause", "unexplained"), "allocation of %s deleted at %d ns, %d ns before its deadline", client, now, a.Deadline.Lo-now)
-		m.M.EndAlloc(a, ivl{now, now}, "unexplained")
-		return
+		return false
 	}
 	if now > m.M.widen(a.Deadline.Hi) {
 		m.v([]string{"C06"}, "alive-after-deadline", kv("probe", "deleted-event"), "allocation of %s deleted %d ns after its deadline", client, now-a.Deadline.Hi)
 	}
 	m.M.EndAlloc(a, ivl{a.Deadline.Lo, now}, "expiry")
+	return true
 }
 
 func (m *Monitor) pendingAllocate(client string) bool {
@@ -1065,7 +1212,7 @@ func (m *Monitor) Idle(now int64, allocCount int, lossFree bool) {
 			if !m.M.DefinitelyAlive(a, s.TRecv, now) || a.TCP {
 				continue
 			}
-			if _, failed := m.relayErr[a.RelayKey]; failed {
+			if _, failed := m.relayErr[a.RelayKey]; failed || m.relayWriteErr[a.RelayKey] {
 				continue
 			}
 			if s.IsChan {
@@ -1204,6 +1351,9 @@ func (m *Monitor) Final(now int64) {
 }
 
 func (m *Monitor) pairEvents() {
+	// created and deleted callbacks pair up one-to-one: equal counts per object at the end of
+	// the run (everything has been released by then). Order is not judged: a stalled callback
+	// may be overtaken.
 	bal := map[string]int{}
 	for _, e := range m.events {
 		switch e.Kind {
@@ -1220,29 +1370,21 @@ func (m *Monitor) pairEvents() {
 		case "chan-deleted":
 			bal["channel|"+e.Key]--
 		}
-		for k, v := range bal {
-			if v < 0 {
-				kind := k[:strings.IndexByte(k, '|')]
-				m.v([]string{"C15"}, "event-unpaired", kv("kind", kind, "side", "deleted"), "%s deleted event without matching created event: %s", kind, k)
-				bal[k] = 0
-			}
-			if v > 1 {
-				kind := k[:strings.IndexByte(k, '|')]
-				m.v([]string{"C15"}, "event-unpaired", kv("kind", kind, "side", "created"), "%s created twice without deletion in between: %s", kind, k)
-				bal[k] = 1
-			}
-		}
 	}
-	var left []string
+	var keys []string
 	for k, v := range bal {
-		if v > 0 {
-			left = append(left, k)
+		if v != 0 {
+			keys = append(keys, k)
 		}
 	}
-	sort.Strings(left)
-	for _, k := range left {
+	sort.Strings(keys)
+	for _, k := range keys {
 		kind := k[:strings.IndexByte(k, '|')]
-		m.v([]string{"C15"}, "event-unpaired", kv("kind", kind, "side", "created"), "%s created event never followed by deleted: %s", kind, k)
+		if bal[k] > 0 {
+			m.v([]string{"C15"}, "event-unpaired", kv("kind", kind, "side", "created"), "%d %s created event(s) never followed by a deleted event: %s", bal[k], kind, k)
+		} else {
+			m.v([]string{"C15"}, "event-unpaired", kv("kind", kind, "side", "deleted"), "%d %s deleted event(s) more than created events: %s", -bal[k], kind, k)
+		}
 	}
 }
 
